@@ -4,6 +4,7 @@ import (
 	"gonum.org/v1/gonum/floats"
 	"gonum.org/v1/gonum/stat"
 	"math"
+	"sort"
 )
 
 // Floats provides descriptive statistics on a slice of float64 values
@@ -47,12 +48,21 @@ func (x Floats) MeanVariance() []float64 {
 	return []float64{m, v}
 }
 
+// sortedCopy returns the values in ascending order without modifying the receiver;
+// the empirical quantiles are defined over ordered data
+func (x Floats) sortedCopy() []float64 {
+	s := make([]float64, len(x))
+	copy(s, x)
+	sort.Float64s(s)
+	return s
+}
+
 // Median returns the middle value in the slice (50% quantile)
 func (x Floats) Median() float64 {
 	if len(x) == 0 {
 		return math.NaN()
 	}
-	return stat.Quantile(0.5, stat.Empirical, x, nil)
+	return stat.Quantile(0.5, stat.Empirical, x.sortedCopy(), nil)
 }
 
 // Q25 is the 25% quantile
@@ -60,7 +70,7 @@ func (x Floats) Q25() float64 {
 	if len(x) == 0 {
 		return math.NaN()
 	}
-	return stat.Quantile(0.25, stat.Empirical, x, nil)
+	return stat.Quantile(0.25, stat.Empirical, x.sortedCopy(), nil)
 }
 
 // Q75 is the 75% quantile
@@ -68,7 +78,7 @@ func (x Floats) Q75() float64 {
 	if len(x) == 0 {
 		return math.NaN()
 	}
-	return stat.Quantile(0.75, stat.Empirical, x, nil)
+	return stat.Quantile(0.75, stat.Empirical, x.sortedCopy(), nil)
 }
 
 // Variance returns the variance of the values in the slice
